@@ -57,4 +57,61 @@ instance (tok : Token) : Ans (ROk tok) (stepInHead tok) := by
       | some v => rw [hq] at hp; simpa using hp
     simp [hpr, hct, ← he]
 
+/-! ### the other insertion modes -/
+
+-- the two places where an answer is bound, something else is done, and the answer is returned
+theorem ans_stepInHead_bind {β : Type} {Q : β → Prop} {tok : Token} {f : ProcessResult → M β}
+    (h : ∀ r, ROk tok r → Ans Q (f r)) : Ans Q (stepInHead tok >>= f) := Ans.bindK inferInstance h
+
+macro_rules
+  | `(tactic| ans_step) => `(tactic| with_reducible apply ans_stepInHead_bind)
+
+instance (tok : Token) : Ans (ROk tok) (stepInitial tok) := by unfold stepInitial; ans_walk
+instance (tok : Token) : Ans (ROk tok) (stepBeforeHtml tok) := by unfold stepBeforeHtml; ans_walk
+instance (tok : Token) : Ans (ROk tok) (stepInBody tok) := by unfold stepInBody; ans_walk
+theorem ans_stepInBody_bind {β : Type} {Q : β → Prop} {tok : Token} {f : ProcessResult → M β}
+    (h : ∀ r, ROk tok r → Ans Q (f r)) : Ans Q (stepInBody tok >>= f) := Ans.bindK inferInstance h
+
+macro_rules
+  | `(tactic| ans_step) => `(tactic| with_reducible apply ans_stepInBody_bind)
+
+instance (tok : Token) : Ans (ROk tok) (stepBeforeHead tok) := by unfold stepBeforeHead; ans_walk
+instance (tok : Token) : Ans (ROk tok) (stepInHeadNoscript tok) := by unfold stepInHeadNoscript; ans_walk
+instance (tok : Token) : Ans (ROk tok) (stepAfterHead tok) := by unfold stepAfterHead; ans_walk
+instance (tok : Token) : Ans (ROk tok) (stepText tok) := by unfold stepText; ans_walk
+instance (tok : Token) : Ans (ROk tok) (fosterParentInBody tok) := by unfold fosterParentInBody; ans_walk
+instance (tok : Token) : Ans (ROk tok) (processCharsInTable tok) := by unfold processCharsInTable; ans_walk
+instance (tok : Token) : Ans (ROk tok) (stepInTable tok) := by unfold stepInTable; ans_walk
+instance (tok : Token) : Ans (ROk tok) (stepInTableText tok) := by unfold stepInTableText; ans_walk
+instance (tok : Token) : Ans (ROk tok) (stepInCaption tok) := by unfold stepInCaption; ans_walk
+instance (tok : Token) : Ans (ROk tok) (stepInColumnGroup tok) := by unfold stepInColumnGroup; ans_walk
+instance (tok : Token) : Ans (ROk tok) (stepInTableBody tok) := by unfold stepInTableBody; ans_walk
+instance (tok : Token) : Ans (ROk tok) (stepInRow tok) := by unfold stepInRow; ans_walk
+instance (tok : Token) : Ans (ROk tok) (stepInCell tok) := by unfold stepInCell; ans_walk
+instance (tok : Token) : Ans (ROk tok) (stepInTemplate tok) := by unfold stepInTemplate; ans_walk
+instance (tok : Token) : Ans (ROk tok) (stepAfterBody tok) := by unfold stepAfterBody; ans_walk
+instance (tok : Token) : Ans (ROk tok) (stepInFrameset tok) := by unfold stepInFrameset; ans_walk
+instance (tok : Token) : Ans (ROk tok) (stepAfterFrameset tok) := by unfold stepAfterFrameset; ans_walk
+instance (tok : Token) : Ans (ROk tok) (stepAfterAfterBody tok) := by unfold stepAfterAfterBody; ans_walk
+instance (tok : Token) : Ans (ROk tok) (stepAfterAfterFrameset tok) := by unfold stepAfterAfterFrameset; ans_walk
+
+/-- **every insertion mode**: an encoding indicator only for a qualifying `meta` start tag -/
+instance (mode : Mode) (tok : Token) : Ans (ROk tok) (step mode tok) := by
+  cases mode <;> (unfold step; exact inferInstance)
+
+/-! ### foreign content -/
+
+instance (tag : Tag) : Ans (ROk (.tag tag)) (unexpectedStartTagInForeignContent tag) := by
+  unfold unexpectedStartTagInForeignContent; ans_walk
+
+theorem ans_foreignEndTagLoop (tag : Tag) : ∀ (i : Nat) (first : Bool), Ans (ROk (.tag tag)) (foreignEndTagLoop tag i first)
+  | 0, _ => by unfold foreignEndTagLoop; ans_walk
+  | i + 1, first => by
+    have ih := ans_foreignEndTagLoop tag i
+    unfold foreignEndTagLoop; ans_walk
+instance (tag : Tag) (i : Nat) (first : Bool) : Ans (ROk (.tag tag)) (foreignEndTagLoop tag i first) :=
+  ans_foreignEndTagLoop tag i first
+
+instance (tok : Token) : Ans (ROk tok) (stepForeign tok) := by unfold stepForeign; ans_walk
+
 end H5V.Props.C19
